@@ -132,6 +132,8 @@ def try_instantiate(cls):
     reader thread there when given a serial transport)."""
     import threading
     orig = threading.Thread.start
+    if cls.__module__ == "qmi.core.task":
+        return _try_instantiate(cls)      # the runner's constructor waits for its (idle) task thread
     threading.Thread.start = lambda self: None
     try:
         return _try_instantiate(cls)
@@ -726,7 +728,8 @@ KINDS = [("fm", 22), ("fu", 16), ("sm_in", 4), ("sm_out", 2), ("su", 3), ("cm_in
 
 
 def member_src(C, n, kind):
-    body = "        LOG.append((%r, %r))\n        return ('ret', %r)\n" % (n, C, n)
+    ln = "_" + C.lstrip("_") + n if (n.startswith("__") and not n.endswith("__")) else n   # name mangling
+    body = "        LOG.append((%r, %r))\n        return ('ret', %r)\n" % (ln, C, ln)
     sbody = body
     if kind == "fm":
         return "    @rpc_method\n    def %s(self, *a, **k):\n%s" % (n, body)
@@ -751,13 +754,13 @@ def member_src(C, n, kind):
     if kind == "data_none":
         return "    %s = None\n" % n
     if kind == "lam_u":
-        return "    %s = lambda self, *a, **k: LOG.append((%r, %r))\n" % (n, n, C)
+        return "    %s = lambda self, *a, **k: LOG.append((%r, %r))\n" % (n, ln, C)
     if kind == "lam_m":
-        return "    %s = rpc_method(lambda self, *a, **k: LOG.append((%r, %r)))\n" % (n, n, C)
+        return "    %s = rpc_method(lambda self, *a, **k: LOG.append((%r, %r)))\n" % (n, ln, C)
     if kind == "callobj":
-        return "    %s = MarkedCallable(%r, %r)\n" % (n, C, n)
+        return "    %s = MarkedCallable(%r, %r)\n" % (n, C, ln)
     if kind == "partial":
-        return "    %s = functools.partial(_pf, %r, %r)\n" % (n, C, n)
+        return "    %s = functools.partial(_pf, %r, %r)\n" % (n, C, ln)
     if kind == "nested":
         return "    class %s:\n        pass\n" % n
     if kind == "signal":
@@ -888,6 +891,8 @@ def parse_bools(txt):
 def run(ck):
     ck.theory_dir = THEORY
     t_start = time.time()
+    import logging
+    logging.getLogger("qmi").setLevel(logging.CRITICAL)
     ck.trusted = [
         "Coq 8.16.1 kernel (vm_compute for the per-class obligations and for evaluating the model on cases)",
         "hand-written model theories/C05/Model.v (class = MRO of member tables; type/object attribute lookup; "
